@@ -14,6 +14,7 @@ tlcmod = core.tlcmod
 EVAL_CFG = """INIT Init
 NEXT Next
 CHECK_DEADLOCK FALSE
+ALIAS Shown
 INVARIANT KnownClause
 INVARIANT IdomOK
 INVARIANT QueriesOK
@@ -184,7 +185,7 @@ def observe_cfg(drv, g, nodes, n, what):
     """Observations on one ControlFlowGraph (entry/exit set) -> list of clause observations."""
     idxmap = {nodes[k]: k for k in range(1, n + 1)}
     obs = []
-    if "dom" in what:
+    if "dom" in what or "dom-" in what:
         obs.append({"cl": "idom", "impl": "cfg", "idom": attempt(lambda: {"ok": True, "v": [
             _idx(idxmap, g.get_immediate_dominator(nodes[k])) for k in range(1, n + 1)]})})
         obs.append({"cl": "queries", "dom": attempt(lambda: _pairs(g.dominates, nodes, n)),
@@ -197,6 +198,7 @@ def observe_cfg(drv, g, nodes, n, what):
                 out.append([-1, -1] if iv is None else [int(iv[0]), int(iv[1])])
             return {"ok": True, "v": out}
 
+    if "dom" in what:
         obs.append({"cl": "intervals", "iv": attempt(ivs)})
         obs.append({"cl": "tree",
                     "kids": attempt(lambda: {"ok": True, "v": [
@@ -231,7 +233,7 @@ def observe_pdom(drv, g, nodes, n, exit_):
     return [{"cl": "pdom", "exit": exit_, "pd": pd}, {"cl": "ipdom", "exit": exit_, "ipdom": attempt(ip)}]
 
 
-def observe_direct(drv, n, edges, entry):
+def observe_direct(drv, n, edges, entry, what):
     """lt.calculate_idom on a plain DiGraph and the fixed-point functions called directly."""
     obs = []
 
@@ -243,8 +245,10 @@ def observe_direct(drv, n, edges, entry):
         idxmap = {nodes[k]: k for k in range(1, n + 1)}
         return _list(idxmap, drv.lt.calculate_idom(g, nodes[entry]), nodes, n)
 
-    obs.append({"cl": "idom", "impl": "lt", "idom": attempt(lt_direct)})
-
+    if "lt" in what:
+        obs.append({"cl": "idom", "impl": "lt", "idom": attempt(lt_direct)})
+    if "fp" not in what:
+        return obs
     g, nodes = drv.build(n, edges, entry, entry)
     idxmap = {nodes[k]: k for k in range(1, n + 1)}
     box = {}
@@ -269,7 +273,7 @@ def graph_name(n, edges, entry):
     return "n=%d:e=%s:entry=%d" % (n, ",".join("%d>%d" % e for e in edges), entry)
 
 
-ALL = ("dom", "df", "reach", "direct")
+ALL = ("dom", "df", "reach", "lt", "fp")
 
 
 def record(drv, n, edges, entry, exits, what=ALL, name=None):
@@ -280,11 +284,11 @@ def record(drv, n, edges, entry, exits, what=ALL, name=None):
     signal.setitimer(signal.ITIMER_REAL, 60)
     try:
         try:
-            if set(what) & {"dom", "df", "reach"}:
+            if set(what) & {"dom", "dom-", "df", "reach"}:
                 g, nodes = drv.build(n, edges, entry, exits[0] if exits else entry)
                 obs += observe_cfg(drv, g, nodes, n, what)
-            if "direct" in what:
-                obs += observe_direct(drv, n, edges, entry)
+            if set(what) & {"lt", "fp"}:
+                obs += observe_direct(drv, n, edges, entry, what)
             for x in exits:
                 g, nodes = drv.build(n, edges, entry, x)
                 obs += observe_pdom(drv, g, nodes, n, x)
@@ -438,8 +442,12 @@ def with_exit_node(n, edges):
 
 
 def small_specs(ctx, full):
-    """All graphs on <= 4 nodes.  idom/queries/intervals/tree/df on every one; the other
-    clauses on every one (full) or on the loop-free ones plus one seeded self-loop variant each."""
+    """All graphs on <= 4 nodes (entry 1).  idom/queries/df on every one.  Tree intervals, tree
+    children/bottom_up, can_reach and lt.calculate_idom on every one (full) or on the loop-free
+    ones plus one seeded self-loop variant each ("dom-" = idom and queries only).  Post-dominators with exit n -- up to renaming every (graph, entry,
+    exit) with exit # entry -- on every graph whose node n is a sink, and on a seeded 1/96 sample
+    of the others (exit with successors, together with exit = entry); the fixed-point dominators
+    on every graph whose entry has no predecessor and on the same sample of the others."""
     specs = []
     for n in range(1, 5):
         pick = None
@@ -448,9 +456,33 @@ def small_specs(ctx, full):
                 pick = ctx.rng.randrange(1, 1 << n)
                 pick = [k + 1 for k in range(n) if pick >> k & 1]
             e = sorted(edges + [(k, k) for k in loops])
+            sample = ctx.rng.random() < 1 / 96
             rich = full or n <= 3 or not loops or loops == pick
-            specs.append((n, e, 1, sorted({1, n}) if rich else [], ALL if rich else ("dom", "df")))
+            what = ["dom", "df"] if rich else ["dom-", "df"]
+            if rich:
+                what += ["reach", "lt"]
+            if n <= 3:
+                what.append("fp")
+                exits = sorted({1, n})
+            else:
+                if sample or not any(b == 1 for a, b in e):
+                    what.append("fp")
+                exits = [n] if not any(a == n for a, b in e) else ([n, 1] if sample else [])
+            specs.append((n, e, 1, exits, tuple(what)))
     return specs
+
+
+def _exits_for(rng, n, edges, p):
+    """A sink as exit when there is one (the shape ppci's own CFGs have), else -- with
+    probability p -- any node."""
+    sinks = [k for k in range(1, n + 1) if not any(a == k for a, b in edges)]
+    if sinks:
+        return [rng.choice(sinks)]
+    return [rng.randrange(1, n + 1)] if rng.random() < p else []
+
+
+def _what_for(rng, edges, p):
+    return ALL if (not any(b == 1 for a, b in edges) or rng.random() < p) else ("dom", "df", "reach", "lt")
 
 
 def random_specs(ctx, count, lo, hi):
@@ -464,9 +496,9 @@ def random_specs(ctx, count, lo, hi):
                 # no sink at all: ppci's CFG then has an unreachable exit node; make one
                 # random node return as well so that post-dominance is exercised
                 e2 = sorted(set(e2) | {(ctx.rng.randrange(1, n + 1), x)})
-            specs.append((n2, e2, 1, [x], ALL))
+            specs.append((n2, e2, 1, [x], _what_for(ctx.rng, e2, 0.1)))
         else:
-            specs.append((n, e, 1, sorted({ctx.rng.randrange(1, n + 1), ctx.rng.randrange(1, n + 1)}), ALL))
+            specs.append((n, e, 1, _exits_for(ctx.rng, n, e, 0.1), _what_for(ctx.rng, e, 0.1)))
     return specs
 
 
@@ -481,7 +513,7 @@ def five_node_specs(ctx):
     for edges in (e for part in parts for e in part):
         lm = ctx.rng.randrange(0, 32) if ctx.rng.random() < 0.5 else 0
         e = sorted(edges + [(k + 1, k + 1) for k in range(5) if lm >> k & 1])
-        specs.append((5, e, 1, sorted({ctx.rng.randrange(1, 6), ctx.rng.randrange(1, 6)}), ALL))
+        specs.append((5, e, 1, _exits_for(ctx.rng, 5, e, 0.02), _what_for(ctx.rng, e, 0.02)))
     return specs
 
 
@@ -494,6 +526,7 @@ int f(int n, int *a) { int s = 0; for (int i = 0; i < n; i++) { if (a[i] < 0) co
   if (a[i] == 7) break; for (int j = 0; j < i; j++) { s += a[j]; if (s > 100) goto out; } } out: return s; }
 int g(int x) { while (1) { x++; } return x; }
 int h(int x) { do { if (x & 1) x = 3 * x + 1; else x /= 2; } while (x != 1); return x; }
+void spin(int *p) { for (;;) { if (*p) *p = *p + 1; } }
 """,
     "switch": """
 int f(int x, int y) { switch (x) { case 1: y++; case 2: y += 2; break; case 3: return y;
@@ -514,9 +547,11 @@ int g(int x) { l1: if (x > 5) { x--; goto l2; } x++; l2: if (x < 100) goto l1; r
 
 def ir_records(drv, names):
     import io
+    import logging
     from ppci.api import c_to_ir
     from ppci.graph.domtree import CfgInfo
 
+    logging.getLogger().addHandler(logging.NullHandler())  # front-end warnings are not our business
     recs = []
     for sn in names:
         try:
@@ -571,9 +606,13 @@ def judge(ctx, recs, label):
         return None
     slim = [{"n": r["n"], "edges": r["edges"], "entry": r["entry"], "exits": r["exits"],
              "obs": [{k: v for k, v in o.items() if k != "key"} for o in r["obs"]]} for r in recs]
-    path = ctx.trace_file(slim)
-    res = ctx.tlc("Dom_Eval", EVAL_CFG, label=label, env={"TRACE_FILE": path}, continue_=True, workers=WORKERS)
-    os.unlink(path)
+    prefix = os.path.join(ctx.workdir, "c25_%d_" % len(ctx.cov["tlc_runs"]))
+    for ch in range(NCHUNKS):  # record g (0-based) is number g // NCHUNKS + 1 of chunk g % NCHUNKS + 1
+        tlcmod.write_json("%s%d.json" % (prefix, ch + 1), slim[ch::NCHUNKS])
+    res = ctx.tlc("Dom_Eval", EVAL_CFG, label=label, env={"TRACE_FILE": prefix}, continue_=True, workers=WORKERS,
+                  coverage=False, heap="4g")
+    for ch in range(NCHUNKS):
+        os.unlink("%s%d.json" % (prefix, ch + 1))
     for r in recs:
         for o in r["obs"]:
             ctx.count(o["key"])
@@ -581,7 +620,8 @@ def judge(ctx, recs, label):
     seen = set()
     for e in res.errors:
         st = e.last
-        i, c = st.get("i"), st.get("c")
+        k, ch, c = st.get("i"), st.get("chunk"), st.get("c")
+        i = (k - 1) * NCHUNKS + ch if isinstance(k, int) and isinstance(ch, int) else None
         if not (isinstance(i, int) and isinstance(c, int) and 1 <= i <= len(recs) and 1 <= c <= len(recs[i - 1]["obs"])):
             raise tlcmod.MachineryError("TLC error without record index in Dom_Eval: %s\n%s" % (e, e.text[:2000]))
         if (i, c) in seen:
@@ -600,12 +640,14 @@ def _show(o):
     return ", ".join("%s=%s" % (k, v) for k, v in o.items() if k not in ("cl", "key"))[:300]
 
 
-def judge_all(ctx, recs, label, batch=12000):
+def judge_all(ctx, recs, label, batch=40000):
     for k in range(0, len(recs), batch):
         judge(ctx, recs[k:k + batch], "%s[%d]" % (label, k // batch) if len(recs) > batch else label)
 
 
 WORKERS = 8
+STOP_AFTER = 100  # unknown violations after which later (bigger) stages are skipped
+NCHUNKS = 64  # = Dom_Eval.NChunks
 
 
 class Engine:
@@ -635,24 +677,39 @@ class Engine:
         runs = [(3, "TRUE", "TRUE")] + ([(4, "TRUE", "FALSE")] if thorough else [])
         for n, mach, loops in runs:
             res = ctx.tlc("Dom_MC", MC_CFG % (n, mach, loops), label="laws+machines N=%d selfloops=%s" % (n, loops),
-                          workers=WORKERS)
+                          workers=WORKERS, heap="4g")
             for e in res.errors:
                 raise tlcmod.MachineryError("Dom_MC: the specification violates its own law %s: %s" % (e.name, e.text[:1500]))
             acts = tlcmod.action_coverage(res)
             missing = [a for a in MC_ACTIONS if not acts.get("Dom_MC." + a)]
             if missing:
                 raise tlcmod.MachineryError("Dom_MC actions never taken: %s" % missing)
-        # ---- E ----
-        recs = record_many(small_specs(ctx, thorough))
-        recs += record_many(random_specs(ctx, 300, 5, 10))
-        recs += ir_records(drv, sorted(C_SNIPPETS) if thorough else ["loops", "switch"])
+        # ---- E ----  staged, smallest graphs first; a grossly wrong implementation is reported
+        # from the first stages instead of producing hundreds of thousands of error traces
+        small = small_specs(ctx, thorough)
+        stages = [("<=3 nodes, seeded CFGs 5-10, compiled C",
+                   lambda: record_many([sp for sp in small if sp[0] <= 3] + random_specs(ctx, 300, 5, 10))
+                   + ir_records(drv, sorted(C_SNIPPETS) if thorough else ["loops", "switch"]))]
+        four = [sp for sp in small if sp[0] == 4]
+        stages.append(("4 nodes", lambda: record_many(four)))
         if thorough:
-            recs += record_many(five_node_specs(ctx))
-            recs += record_many(random_specs(ctx, 3000, 6, 8))
-            recs += record_many(random_specs(ctx, 500, 9, 14))
-        for r in recs[:: max(1, len(recs) // 4)]:
-            ctx.sample({"graph": r["name"], "observation": {k: v for k, v in r["obs"][0].items() if k != "key"}})
-        judge_all(ctx, recs, "conformance")
+            def five():
+                specs = five_node_specs(ctx)
+                self.five = len(specs)
+                return record_many(specs)
+
+            stages.append(("5 nodes up to isomorphism", five))
+            stages.append(("seeded 6-8 nodes", lambda: record_many(random_specs(ctx, 3000, 6, 8))))
+            stages.append(("seeded 9-14 nodes", lambda: record_many(random_specs(ctx, 500, 9, 14))))
+        for label, make in stages:
+            if len(ctx.violations) >= STOP_AFTER:
+                ctx.note("more than %d violations so far: the remaining stages (from '%s') were not run" % (STOP_AFTER, label))
+                break
+            recs = make()
+            if recs:
+                r = recs[len(recs) // 2]
+                ctx.sample({"graph": r["name"], "observation": {k: v for k, v in r["obs"][0].items() if k != "key"}})
+            judge_all(ctx, recs, label)
 
     def replay(self, ctx, drv):
         case = ctx.only["case"]
